@@ -652,6 +652,12 @@ class SimNetwork:
             self.open_high_water = max(self.open_high_water, len(self.open_client_conns()))
             outcome[1](conn)
             return
+        if kind in ("refused", "unreachable") and len(outcome) > 1 and outcome[1] and s is not None:
+            # the failure takes a while to come back (a slow ICMP answer, a far-away RST)
+            if sock._timeout is not None and sock._timeout < outcome[1]:
+                s.sleep(sock._timeout)
+                raise _real_timeout("timed out")
+            s.sleep(outcome[1])
         if kind == "refused":
             raise ConnectionRefusedError(errno.ECONNREFUSED, "Connection refused")
         if kind == "unreachable":
